@@ -7,7 +7,7 @@
      lit v | var n | list xs | map es(<<k, v>>) | un op x | bin op l r | cond c a b | idx x i | sel x f | has x f
      | call f args | mcall x f args | macro m x v body        (m in map filter all exists exists_one)
    env: sequence of <<name, value>>, innermost binding first.                                                *)
-EXTENDS CelValue, FiniteSets
+EXTENDS CelConv, FiniteSets
 
 Lit(v) == [k |-> "lit", v |-> v]
 Var(n) == [k |-> "var", n |-> n]
@@ -158,6 +158,7 @@ Eval(e, env) ==
     [] e.k = "sel" -> Select(Eval(e.x, env), e.f)
     [] e.k = "has" -> HasField(Eval(e.x, env), e.f)
     [] e.k = "call" -> (CASE e.f \in HostNames -> HostApply(e.f, EvalSeq(e.args, env))
+                          [] e.f \in ConvNames /\ Len(e.args) = 1 -> Conv(e.f, Eval(e.args[1], env))
                           [] Unbound(e.f) -> Err
                           [] e.f = "size" /\ SizeOverridden(env) -> (IF AnyErrSeq(EvalSeq(e.args, env)) THEN Indef ELSE IntV(FromInt(-1)))
                           [] e.f = "size" /\ Len(e.args) = 1 -> SizeOf(Eval(e.args[1], env))
@@ -165,6 +166,13 @@ Eval(e, env) ==
                           [] OTHER -> Indef)
     [] e.k = "mcall" -> (LET x == Eval(e.x, env) IN
                          CASE e.f \in HostNames -> HostApply(e.f, <<x>> \o EvalSeq(e.args, env))
+                           [] e.f \in Accessors /\ Len(e.args) <= 1 ->
+                                (IF IsErr(x) THEN Err ELSE IF x.t # "timestamp" THEN Indef
+                                 ELSE IF e.args = <<>> THEN IntV(FromInt(Accessor(e.f, BigOf(x), 0)))
+                                 ELSE LET z == Eval(e.args[1], env) IN
+                                      IF IsErr(z) THEN Err ELSE IF z.t # "string" THEN Indef
+                                      ELSE LET off == ZoneOffset(z.v, BigOf(x)) IN
+                                           IF off = NoOffset THEN Indef ELSE IntV(FromInt(Accessor(e.f, BigOf(x), off))))
                            [] Unbound(e.f) -> Err
                            [] e.f = "size" /\ SizeOverridden(env) -> (IF AnyErrSeq(<<x>> \o EvalSeq(e.args, env)) THEN Indef ELSE IntV(FromInt(-1)))
                            [] e.f = "size" /\ Len(e.args) = 0 -> SizeOf(x)
